@@ -52,7 +52,7 @@ def view(reg):
 
 
 @contract("spsdk.utils.registers:Register.get_value", split=2)
-def _(self: ANY_REG, raw: bool) -> int:
+def _(self: ANY_REG, raw: OneOf(False, True)) -> int:
     returns(view(self) if raw or not self.reverse else byte_reverse(view(self), self.width // 8), label="value-of-view")
     ensures(0 <= result and result < 2 ** self.width, label="in-range")
     pure()
@@ -60,8 +60,10 @@ def _(self: ANY_REG, raw: bool) -> int:
 
 
 @contract("spsdk.utils.registers:Register.set_value", split=2)
-def _(self: ANY_REG, val: int, raw: bool):
+def _(self: ANY_REG, val: int, raw: OneOf(False, True)):
     raises(SPSDKError, val < 0 or val >= 2 ** self.width, label="rejected-not-truncated")
+    ensures(implies(len(self.sub_regs) == 0, self._value == (val if raw or not self.reverse else byte_reverse(val, self.width // 8))),
+            label="stored-plain")
     ensures(view(self) == (val if raw or not self.reverse else byte_reverse(val, self.width // 8)), label="stored")
     modifies(self._value, self.sub_regs[0]._value, self.sub_regs[1]._value, self.sub_regs[2]._value)
     sample_with(lambda rnd: _sample_reg(rnd, with_val=True))
@@ -104,8 +106,9 @@ def _sample_reg(rnd, with_val):
 PROC = Union[Obj(ConfigProcessor), Obj(ShiftRightConfigProcessor, count=OneOf(1, 4))]
 
 
-def bitfield(width_reg, offsets, widths):
-    return Obj(RegsBitField, parent=plain_reg(width_reg), offset=OneOf(*offsets), width=OneOf(*widths), config_processor=PROC)
+def bitfield(width_reg, offsets, widths, rev=False):
+    return Obj(RegsBitField, parent=rev_reg(width_reg) if rev else plain_reg(width_reg), offset=OneOf(*offsets), width=OneOf(*widths),
+               config_processor=PROC)
 
 
 import os
@@ -114,7 +117,13 @@ if os.environ.get("VERIF_TIER", "quick") == "thorough":
     BF32 = bitfield(32, range(32), range(1, 33))        # all 528 (offset, width) pairs
 else:
     BF32 = bitfield(32, (0, 1, 7, 8, 15, 16, 24, 31), (1, 2, 7, 8, 9, 16, 24, 31, 32))   # boundary-rich subset (44 pairs)
-BF_OTHER = Union[bitfield(8, (0, 3, 7), (1, 5, 8)), bitfield(16, (0, 8, 15), (1, 8, 16)), bitfield(64, (0, 31, 32, 63), (1, 32, 33, 64))]
+BF_OTHER = Union[bitfield(8, (0, 3, 7), (1, 5, 8)), bitfield(16, (0, 8, 15), (1, 8, 16)), bitfield(64, (0, 31, 32, 63), (1, 32, 33, 64)),
+                 bitfield(32, (0, 7, 8, 24), (1, 8, 9, 24), rev=True), bitfield(16, (0, 8), (3, 8), rev=True)]
+
+
+def logical(reg, raw):
+    """The view a field access works on: the raw value, or the byte-reversed one for reversed registers unless raw."""
+    return reg._value if raw or not reg.reverse else byte_reverse(reg._value, reg.width // 8)
 
 
 def field_of(x, off, width):
@@ -131,7 +140,7 @@ def post(bf, v):
 
 def _sample_bf(rnd, with_val):
     w = rnd.choice([8, 16, 32, 32, 32, 64])
-    r = Register("R", 0, w, "r")
+    r = Register("R", 0, w, "r", reverse=rnd.random() < 0.3)
     r._value = rnd.getrandbits(w)
     off = rnd.randrange(0, w)
     width = rnd.randrange(1, w - off + 1)
@@ -149,19 +158,20 @@ def _sample_bf(rnd, with_val):
 @contract("spsdk.utils.registers:RegsBitField.get_value", split=2)
 def _(self: Union[BF32, BF_OTHER]) -> int:
     requires(self.offset + self.width <= self.parent.width)
-    returns(post(self, field_of(self.parent._value, self.offset, self.width)), label="reads-its-bits")
+    returns(post(self, field_of(logical(self.parent, False), self.offset, self.width)), label="reads-its-bits")
     pure()
     sample_with(lambda rnd: _sample_bf(rnd, False))
 
 
-@contract("spsdk.utils.registers:RegsBitField.set_value", split=3)
-def _(self: Union[BF32, BF_OTHER], new_val: int, raw: bool, no_preprocess: bool):
+@contract("spsdk.utils.registers:RegsBitField.set_value", split=4)
+def _(self: Union[BF32, BF_OTHER], new_val: int, raw: OneOf(False, True), no_preprocess: OneOf(False, True)):
     requires(self.offset + self.width <= self.parent.width)
     let(v=new_val if no_preprocess else pre(self, new_val))
     raises(SPSDKError, v < 0 or v >= 2 ** self.width, label="rejected-not-truncated")
-    ensures(field_of(self.parent._value, self.offset, self.width) == v, label="reads-back")
-    ensures(self.parent._value % 2 ** self.offset == old(self.parent._value) % 2 ** self.offset, label="lower-neighbours-untouched")
-    ensures(self.parent._value // 2 ** (self.offset + self.width) == old(self.parent._value) // 2 ** (self.offset + self.width),
+    ensures(field_of(logical(self.parent, raw), self.offset, self.width) == v, label="reads-back")
+    ensures(logical(self.parent, raw) % 2 ** self.offset == old(logical(self.parent, raw)) % 2 ** self.offset,
+            label="lower-neighbours-untouched")
+    ensures(logical(self.parent, raw) // 2 ** (self.offset + self.width) == old(logical(self.parent, raw)) // 2 ** (self.offset + self.width),
             label="upper-neighbours-untouched")
     ensures(0 <= self.parent._value and self.parent._value < 2 ** self.parent.width, label="register-stays-in-range")
     modifies(self.parent._value)
@@ -169,7 +179,7 @@ def _(self: Union[BF32, BF_OTHER], new_val: int, raw: bool, no_preprocess: bool)
 
 
 @lemma("disjoint-field-is-determined-by-the-untouched-part")
-def _(x: U32, y: U32, off: OneOf(0, 5, 16), width: OneOf(1, 7, 16), o2: OneOf(0, 3, 12, 23), w2: OneOf(1, 2, 9)):
+def _(x: U32, y: U32, off: OneOf(5, 16), width: OneOf(1, 7), o2: OneOf(0, 3, 23), w2: OneOf(2, 9)):
     # a field that lies entirely below `off` is a function of x mod 2**off; one entirely at/above off+width of x // 2**(off+width)
     requires(off + width <= 32 and o2 + w2 <= 32)
     ensures(implies(o2 + w2 <= off and x % 2 ** off == y % 2 ** off, field_of(x, o2, w2) == field_of(y, o2, w2)), label="below")
